@@ -421,6 +421,13 @@ func getTcbInfo(fmspc string, getter trust.HTTPSGetter, collateral *Collateral) 
 			Msg: err.Error(),
 		}
 	}
+	// The values that drive the verdict must be the ones whose raw bytes are
+	// signature-checked: decode them from the signed member itself.
+	if err := json.Unmarshal(tcbInfoRawBody, &collateral.TdxTcbInfo.TcbInfo); err != nil {
+		return &trust.AttestationRecreationErr{
+			Msg: fmt.Sprintf("unable to unmarshal tcbInfo: %v", err),
+		}
+	}
 	collateral.TcbInfoBody = tcbInfoRawBody
 	return nil
 }
@@ -454,6 +461,12 @@ func getQeIdentity(getter trust.HTTPSGetter, collateral *Collateral) error {
 	if err != nil {
 		return &trust.AttestationRecreationErr{
 			Msg: err.Error(),
+		}
+	}
+	// Decode the identity from the signed member itself (see getTcbInfo).
+	if err := json.Unmarshal(qeIdentityRawBody, &collateral.QeIdentity.EnclaveIdentity); err != nil {
+		return &trust.AttestationRecreationErr{
+			Msg: fmt.Sprintf("unable to unmarshal enclaveIdentity: %v", err),
 		}
 	}
 	collateral.EnclaveIdentityBody = qeIdentityRawBody
